@@ -379,7 +379,7 @@ pub fn ep(shard: usize, full: bool, f: Sink) {
         if fv < 7 {
             shapes.push((fv, vec![fv + 1]));
         }
-        if full && fv > 0 && fv < 7 {
+        if fv > 0 && fv < 7 {
             shapes.push((fv, vec![fv - 1, fv + 1]));
         }
     }
@@ -724,10 +724,10 @@ pub fn counters() -> Vec<Pos> {
     let mut v = Vec::new();
     let ss = seeds();
     let mut clocks: Vec<u32> = (0..=151).collect();
-    clocks.extend([65533, 65534, 65535]);
+    clocks.extend([254, 255, 256, 257, 258, 32766, 32767, 32768, 32769, 65533, 65534, 65535]);
     for p in ss.iter().take(12) {
         for &h in &clocks {
-            for &n in &[1u32, 2, 65534, 65535] {
+            for &n in &[1u32, 2, 255, 256, 257, 32767, 32768, 65534, 65535] {
                 let mut q = *p;
                 // a non-zero clock is incompatible with an en-passant mark only by game logic,
                 // not by validity; seeds carry no mark
